@@ -357,6 +357,28 @@ Definition construct (g : generics) (cl : cls) (meta : xmeta) (params : list (st
     end
   else Ok (VObj cl fields).
 
+(* the `for key, value in data.items()` loop of bind_dataclass; `rec` = the decoder one call deeper *)
+Fixpoint bind_params (rec : dcall -> gres value) (meta : xmeta) (vars : list xvar)
+         (items : list (str * jvalue)) (acc : list (str * value)) {struct items} : gres (list (str * value)) :=
+  match items with
+  | [] => Ok acc
+  | (key, j) :: r =>
+      match find_var vars key j with
+      | None => Err EParser              (* fail_on_unknown_properties *)
+      | Some var =>
+          if negb (v_init var) then Err EUnmodelled else
+          j' <- (match v_wrapper var with
+                 | Some _ => match j with
+                             | JDict m' => match assoc (v_local_name var) m' with Some x => Ok x | None => Err EKey end
+                             | _ => Err EType
+                             end
+                 | None => Ok j
+                 end) ;;
+          v <- rec (DBindValue meta var j' false) ;;
+          bind_params rec meta vars r (dict_set (v_name var) v acc)
+      end
+  end.
+
 Fixpoint drun (g : generics) (c : conv) (u : universe) (strict : bool) (fuel : nat) (k : dcall)
   {struct fuel} : gres value :=
   match fuel with
@@ -392,25 +414,7 @@ Fixpoint drun (g : generics) (c : conv) (u : universe) (strict : bool) (fuel : n
                 | None => Err EUnmodelled
                 | Some meta =>
                     let vars := get_all_vars meta in
-                    params <- (fix loop (items : list (str * jvalue)) (acc : list (str * value)) : gres (list (str * value)) :=
-                       match items with
-                       | [] => Ok acc
-                       | (key, j) :: r =>
-                           match find_var vars key j with
-                           | None => Err EParser              (* fail_on_unknown_properties *)
-                           | Some var =>
-                               if negb (v_init var) then Err EUnmodelled else
-                               j' <- (match v_wrapper var with
-                                      | Some _ => match j with
-                                                  | JDict m' => match assoc (v_local_name var) m' with Some x => Ok x | None => Err EKey end
-                                                  | _ => Err EType
-                                                  end
-                                      | None => Ok j
-                                      end) ;;
-                               v <- rec (DBindValue meta var j' false) ;;
-                               loop r (dict_set (v_name var) v acc)
-                           end
-                       end) m [] ;;
+                    params <- bind_params rec meta vars m [] ;;
                     construct g cl meta params
                 end
           | _ => Err EAttribute                               (* data.keys() *)
